@@ -21,7 +21,41 @@ def reach_without(fn, start, target, avoid):
     return False
 
 
-def facts_at(fn, prog, bb, tb=None):
+def _through_flag_def(fn, prog, tb, discr, sw_bb, truth, depth):
+    if discr.place is None or not discr.place.is_local():
+        return []
+    l = discr.place.local
+    neg = False
+    for _ in range(4):      # follow copies / negations inside the switch block
+        ds = [x for x in fn.defs().get(l, []) if x[2] == "stmt"]
+        if len(ds) == 1 and ds[0][0] == sw_bb and ds[0][3].rv.k == "use" and ds[0][3].rv.ops[0].place is not None and ds[0][3].rv.ops[0].place.is_local():
+            l = ds[0][3].rv.ops[0].place.local
+        elif len(ds) == 1 and ds[0][0] == sw_bb and ds[0][3].rv.k == "unop" and ds[0][3].rv.j.get("op") == "Not" and ds[0][3].rv.ops[0].place is not None and ds[0][3].rv.ops[0].place.is_local():
+            l = ds[0][3].rv.ops[0].place.local
+            neg = not neg
+        else:
+            break
+    want = truth != neg
+    ds = [x for x in fn.defs().get(l, []) if x[2] == "stmt"]
+    if len(ds) < 2 or len(ds) != len(fn.defs().get(l, [])) or l in tb.clobbers():
+        return []
+    live = []
+    for (b, i, kind, st) in ds:
+        o = st.rv.ops[0] if st.rv.k == "use" and st.rv.ops else None
+        if o is not None and o.k == "const" and isinstance(o.value(), bool) and o.value() != want:
+            continue
+        live.append((b, i, st))
+    if len(live) != 1:
+        return []
+    b, i, st = live[0]
+    if not fn.dominates(b, sw_bb) and not reach_without(fn, b, sw_bb, -1):
+        return []
+    out = [(c, tr, dd) for c, tr, dd in facts_at(fn, prog, b, tb, depth + 1)]
+    out.append((tb.rvalue(st.rv, b, i), want, b))
+    return out
+
+
+def facts_at(fn, prog, bb, tb=None, _depth=0):
     """[(cond_term, truth, switch_bb)] for bool switches whose outcome is fixed on every path to bb"""
     tb = tb or TermBuilder(fn, prog)
     dom = fn.dominators().get(bb, set())
@@ -44,12 +78,17 @@ def facts_at(fn, prog, bb, tb=None):
         dty = t.j.get("discr_ty")
         cond = tb.operand(t.discr, d, len(fn.blocks[d].stmts))
         if dty == "bool":
+            n0 = len(out)
             if vals == [0] and other != s:
                 out.append((cond, False, d))
             elif not vals and other == s and [v for v, _ in arms] == [0]:
                 out.append((cond, True, d))
             elif vals == [1]:
                 out.append((cond, True, d))
+            if len(out) > n0 and cond[0] == "phi" and _depth < 3:
+                # a flag assembled on several branches (`let ok = a && b;`, `let mut found = false; if .. { found = x }`): if all
+                # definitions but one are the opposite constant, control came through that one — its own guards hold as well
+                out += _through_flag_def(fn, prog, tb, t.discr, d, out[-1][1], _depth)
         else:
             if len(vals) == 1 and other != s:
                 out.append((mk("Eq", cond, const(vals[0])), True, d))
